@@ -277,6 +277,11 @@ action_write(struct step_context *c, int argc, char **argv)
 		if (step_set_keyval(c->step_file, st, *argv, c->scratch))
 			return ACTION_ERROR_FATAL;
 	}
+	/* The step is selected using -i, do not let step=... renumber it. */
+	if (step_get_field(st, "step")->integer != id) {
+		warnx("step cannot differ from id %d", id);
+		return ACTION_ERROR_FATAL;
+	}
 	return steps_write(c->step_file, c->scratch) ?
 	    ACTION_ERROR_FATAL : ACTION_ERROR_NONE;
 }
